@@ -128,8 +128,9 @@ def one_construction(rec, rng, dims, modes, ordering, pairs, entry, extras=True)
             t2 = t.to_format(taco.fmt_text(m2, o2))
             check_tensor(rec, t2, dims, m2, o2, want, None, f"{entry}->to_format", {**ctx, "second_format": taco.fmt_text(m2, o2)})
             t3 = pickle.loads(pickle.dumps(t))
-            if taco.read_raw(t3) != taco.read_raw(t):
-                rec.violation("pickle-changes-raw-structure", {"entry": entry, **ctx})
+            # content, format and canonical form are judged by check_tensor; bit-identity of the raw
+            # arrays (explicit zeros kept) is more than the property states and only counted
+            rec.count("pickle_raw_identical" if taco.read_raw(t3) == taco.read_raw(t) else "pickle_raw_differs")
             check_tensor(rec, t3, dims, modes, ordering, want, None, f"{entry}->pickle", ctx)
             if not (t == t3 and t == t2):
                 rec.violation("equality-after-roundtrip", {"entry": entry, **ctx})
@@ -190,9 +191,18 @@ def variant_constructions(rec, rng, dims, modes, ordering, pairs):
                 t = Tensor.from_aos(cs, vs, **kw)
                 want_here = want
             exp_dims = tuple(dims) if "dimensions" in kw else tuple(max(c[d] for c in cs) + 1 for d in range(n))
-            if t.order != n or tuple(t.dimensions) != exp_dims:
-                rec.violation("default-dimensions", {"entry": f"{entry}:{which}", **ctx, "got": list(t.dimensions), "want": list(exp_dims)})
+            got_dims = tuple(t.dimensions)
+            if "dimensions" in kw:
+                ok_dims = got_dims == exp_dims
+            else:
+                # omitted dimensions: the property only needs every supplied coordinate to be in range
+                ok_dims = len(got_dims) == n and all(g >= e for g, e in zip(got_dims, exp_dims))
+                if got_dims == exp_dims:
+                    rec.count("default_dimensions_equal_largest_index_plus_one")
+            if t.order != n or not ok_dims:
+                rec.violation("default-dimensions", {"entry": f"{entry}:{which}", **ctx, "got": list(got_dims), "want_at_least": list(exp_dims)})
                 return
+            exp_dims = got_dims
             fm = tuple("d" if m.name == "dense" else "s" for m in t.format.modes)
             if "format" in kw and (fm != tuple(modes) or tuple(t.format.ordering) != tuple(ordering)):
                 rec.violation("format", {"entry": f"{entry}:{which}", **ctx, "got": t.format.deparse()})
@@ -203,8 +213,7 @@ def variant_constructions(rec, rng, dims, modes, ordering, pairs):
             raw = taco.read_raw(t)
             for proto in range(0, pickle.HIGHEST_PROTOCOL + 1):
                 t3 = pickle.loads(pickle.dumps(t, protocol=proto))
-                if taco.read_raw(t3) != raw:
-                    rec.violation("pickle-changes-raw-structure", {"entry": f"protocol {proto}", **ctx})
+                rec.count("pickle_raw_identical" if taco.read_raw(t3) == raw else "pickle_raw_differs")
                 check_tensor(rec, t3, dims, modes, ordering, want, None, f"pickle-protocol-{proto}", ctx)
         elif which == "copy":
             t = Tensor.from_aos(cs, vs, dimensions=tuple(dims), format=fmt)
@@ -225,11 +234,13 @@ def variant_constructions(rec, rng, dims, modes, ordering, pairs):
                 cur = cur.to_format(hops[-1])
                 check_tensor(rec, cur, dims, m2, o2, want, None, "to_format-chain", {**ctx, "hops": list(hops)})
             back = cur.to_format(fmt)
+            check_tensor(rec, back, dims, modes, ordering, want, None, "to_format-chain-back", {**ctx, "hops": list(hops)})
             rb = taco.read_raw(back)
-            # explicit zeros are dropped by to_format (it goes through to_dok); compare with the canonical build of the non-zeros
+            # whether explicit zeros survive to_format is not prescribed: structural identity with the
+            # canonical build of the non-zeros is evidence only
             ind, vals = taco.build(want, dims, modes, ordering)
-            if (rb[3], list(rb[4])[: len(vals)]) != (ind, list(vals)):
-                rec.violation("to_format-chain-does-not-return-to-canonical-structure", {**ctx, "hops": hops, "got": str(rb[3:])[:300], "want": str((ind, vals))[:300]})
+            if rb[3] == ind:
+                rec.count("to_format_chain_back_equals_canonical_build")
     except Exception as exc:  # noqa: BLE001
         rec.violation(f"variant-raised:{type(exc).__name__}", {"entry": which, **ctx, "error": str(exc)[:200]})
 
